@@ -42,7 +42,7 @@ ASSUMPTIONS = [
 REQUIRED_CLASSES = {
     "all": ["inject=none", "inject=offdiag_h0", "inject=shared_energy", "inject=mask_degenerate", "inject=nonorthonormal",
             "inject=asymmetric_mask", "inject=nonhermitian_sympy", "inject=exclusive_options", "inject=zero_diagonal", "inject=nonconserving_h0", "inject=nonhermitian_sympy_operators",
-            "mode=nonhermitian", "lower-triangle-only", "mask-dict-with-several-blocks"]
+            "mode=nonhermitian", "lower-triangle-only", "mask-dict-with-several-blocks", "offdiag-h0-towards-implicit-block"]
 }
 ALLOWED = (ValueError, TypeError, NotImplementedError)
 KINDS = ["none", "offdiag_h0", "offdiag_h0", "shared_energy", "shared_energy", "mask_degenerate", "mask_degenerate", "nonorthonormal",
@@ -83,7 +83,7 @@ def _sweep(H_tilde, U, U_inv, nb, n_params, K):
                             warnings.simplefilter("ignore")
                             v = series[(i, j) + n]
                     except Exception as exc:  # noqa: BLE001
-                        return "raised", (exc, f"{name}[{i},{j},{list(n)}]")
+                        return "raised", (exc, f"{name}[{i},{j},{list(n)}]", len(vals))
                     vals.append((name, (i, j) + n, v))
     return "returned", vals
 
@@ -110,6 +110,8 @@ def check_case(case, enforce_all=False):
         pairs = [(i, j) for i in range(N) for j in range(N) if p["assign"][i] < p["assign"][j]]
         if not pairs:
             return None
+        if kind == "offdiag_h0" and par["b"] % 3 == 0:
+            pairs = [pr_ for pr_ in pairs if p["assign"][pr_[1]] == nb - 1]
         return pairs[par["a"] % len(pairs)]
 
     ham = kwargs = None
@@ -306,6 +308,14 @@ def check_case(case, enforce_all=False):
             out.labels.append("lower-triangle-only")
         ham[zero_order] = sparse.csr_array(h0) if p["repr"] == "sparse" else h0
         loc_nontrivial = (p["assign"][i], p["assign"][j]) != (0, 1) or p["repr"] == "sparse" or not p["hermitian"]
+        if par["b"] % 3 == 0 and p["assign"][j] == nb - 1:
+            # implicit mode: the last block is only known as "the complement of the supplied vectors", which are
+            # therefore no longer an invariant subspace of H_0
+            from vlib.instrument import implicit_kwargs
+
+            kwargs = implicit_kwargs(p, kwargs)
+            out.labels.append("offdiag-h0-towards-implicit-block")
+            loc_nontrivial = True
     elif kind == "nonorthonormal":
         if p["repr"] == "sympy":
             eye = sympy.eye(N)
@@ -385,12 +395,20 @@ def check_case(case, enforce_all=False):
         return out
     status, payload = _sweep(H_tilde, U, U_inv, nb, p["n_params"], p["K"])
     if status == "raised":
-        exc, where = payload
+        exc, where, pos = payload
         if isinstance(exc, ALLOWED):
             if not must_reject:
                 out.fail("rejected-well-posed", f"well-posed problem: {where} raised {type(exc).__name__}: {str(exc)[:200]}")
             out.labels.append("rejected-at-evaluation")
             out.nontrivial = bool(must_reject and loc_nontrivial)
+            if must_reject:
+                # a rejection is not a one-off: asking again (same computation, same order of requests) must not turn
+                # the rejected element into a number
+                status2, payload2 = _sweep(H_tilde, U, U_inv, nb, p["n_params"], p["K"])
+                if status2 == "returned" or payload2[2] > pos:
+                    out.fail("accepted-after-rejection", f"{kind}: {where} was rejected ({type(exc).__name__}) but the same request returned a value when repeated")
+                elif not isinstance(payload2[0], ALLOWED):
+                    out.fail("wrong-exception-type", f"{kind}: repeated request {payload2[1]} raised {type(payload2[0]).__name__}: {str(payload2[0])[:200]}")
         else:
             out.fail("wrong-exception-type", f"{kind}: {where} raised {type(exc).__name__}: {str(exc)[:200]}")
         return out
